@@ -296,7 +296,7 @@ void runModel(NifFile& nif, const std::string& what, Rng& rng, int rounds, int m
 }
 
 struct Plan { size_t api; size_t realRounds; int exhMax; };
-Plan plan() { return g_cfg.tier ? Plan{3000, 40, 6} : Plan{300, 4, 5}; }
+Plan plan() { return g_cfg.tier ? Plan{16000, 100, 7} : Plan{300, 4, 5}; }
 
 void run(size_t idx) {
 	Plan p = plan();
@@ -375,7 +375,7 @@ void run(size_t idx) {
 MonReg reg({"C09", "exploration",
 			"shapes: NiTriShape, NiTriStrips (hand-built strips), BSTriShape, BSDynamicTriShape, BSSubIndexTriShape with FO4 segments, skinned (NiSkinData+partitions, BSSkin) and "
 			"unskinned, from API-built models in six versions and from the real samples. Index sets (always sorted, duplicate-free): single, prefix, suffix incl. the last vertex, "
-			"alternating, all, last only, random sparse/dense; 1..5 successive deletions; exhaustively every non-empty subset of meshes with 1..5 (quick) / 1..6 (thorough) vertices in "
+			"alternating, all, last only, random sparse/dense; 1..5 successive deletions; exhaustively every non-empty subset of meshes with 1..5 (quick) / 1..7 (thorough) vertices in "
 			"six versions, skinned and unskinned. Oracle vs reference model: survivors in order with bit-identical positions/UVs/normals/tangents/colours/eye data/vertex weights; "
 			"triangle list == filtered, re-indexed originals in order; NiSkinData weights and LOCKEDNORM lists restricted and re-indexed; every index in triangles, strips, skin weights, "
 			"partition maps in range; counters equal sizes; C10 partition invariants; FO4 segment table partitions the triangles and labels survive; geometry stable across save+reload.",
